@@ -15,6 +15,7 @@ func HarnessC15_Concurrent() {
 	server := vBool()
 	fc := newFakeConn(nil)
 	fc.hook = func(p []byte) { vSchedPoint() } // the transport write is a place where threads interleave
+	fc.deadlines = true                         // a control sender's deadline must never cut a data frame that is being written
 	c := newConn(fc, server, 0, 1)              // 15-byte write buffer: the message spans several frames
 	var data []byte
 	direct := false
